@@ -38,6 +38,19 @@ def run(ctx):
     from ..engines import forestrules as E
     E.e5_find_rule_exact(ctx)
     E.e7_minimise_bookkeeping(ctx)
+    # productivity is judged from (parent, children, shifts): the shifts a rule declares must be the ones
+    # its constructor honours (engine S, quick parameters), and what is recorded must be the rule's own triple
+    from ..engines import sizecheck as SC
+    for fam in SC.strategy_families(ctx.P):
+        st = SC.run_family(ctx, fam, 3, 2)
+        SC.run_derived(ctx, fam, 3, st)
+    SC.s4_forest_keys(ctx)
+    from ..engines import provenance as PV
+    PV.a1_a2_expand_yield(ctx)
+    PV.a3_recording_sites(ctx)
+    ctx.floor("S1", 20)
+    ctx.floor("S4", 8)
+    ctx.floor("A3", 7)
     ctx.floor("G1", 3)
     ctx.floor("G2", 2)
     ctx.floor("G3", 2)
